@@ -745,8 +745,17 @@ Error BaseBuilder::embed_const_pool(const Label& label, const ConstPool& pool) {
 // ==========================================
 
 Error BaseBuilder::embed_label(const Label& label, size_t data_size) {
-  if (ASMJIT_UNLIKELY(!Support::bool_and(_code, Support::is_zero_or_power_of_2_up_to(data_size, 8u)))) {
-    return report_error(make_error(!_code ? Error::kNotInitialized : Error::kInvalidArgument));
+  if (ASMJIT_UNLIKELY(!_code)) {
+    return report_error(make_error(Error::kNotInitialized));
+  }
+
+  // The same tests, in the same order, as BaseAssembler::embed_label() so both emitters report the same error.
+  if (ASMJIT_UNLIKELY(!is_label_valid(label))) {
+    return report_error(make_error(Error::kInvalidLabel));
+  }
+
+  if (ASMJIT_UNLIKELY(!Support::is_zero_or_power_of_2_up_to(data_size, 8u))) {
+    return report_error(make_error(Error::kInvalidOperandSize));
   }
 
   EmbedLabelNode* node = nullptr;
@@ -757,8 +766,17 @@ Error BaseBuilder::embed_label(const Label& label, size_t data_size) {
 }
 
 Error BaseBuilder::embed_label_delta(const Label& label, const Label& base, size_t data_size) {
-  if (ASMJIT_UNLIKELY(!Support::bool_and(_code, Support::is_zero_or_power_of_2_up_to(data_size, 8u)))) {
-    return report_error(make_error(!_code ? Error::kNotInitialized : Error::kInvalidArgument));
+  if (ASMJIT_UNLIKELY(!_code)) {
+    return report_error(make_error(Error::kNotInitialized));
+  }
+
+  // The same tests, in the same order, as BaseAssembler::embed_label_delta().
+  if (ASMJIT_UNLIKELY(!Support::bool_and(is_label_valid(label), is_label_valid(base)))) {
+    return report_error(make_error(Error::kInvalidLabel));
+  }
+
+  if (ASMJIT_UNLIKELY(!Support::is_zero_or_power_of_2_up_to(data_size, 8u))) {
+    return report_error(make_error(Error::kInvalidOperandSize));
   }
 
   EmbedLabelDeltaNode* node = nullptr;
